@@ -58,7 +58,14 @@ func (cq *chatQueue) queueTask(task func(*ChatState, netmc.MinecraftConn) *futur
 func (cq *chatQueue) QueuePacket(nextPacket func(*chat.LastSeenMessages) *future.Future[proto.Packet], timestamp time.Time, lastSeenMessages *chat.LastSeenMessages) {
 	cq.queueTask(func(chatState *ChatState, smc netmc.MinecraftConn) *future.Future[any] {
 		newLastSeenMessages := chatState.UpdateFromMessage(&timestamp, lastSeenMessages)
-		return future.ThenCompose(nextPacket(newLastSeenMessages), func(p proto.Packet) *future.Future[any] {
+		next := nextPacket(newLastSeenMessages)
+		if next == nil {
+			// Nothing to send (e.g. the player is being disconnected for an illegal
+			// protocol state): composing with a nil future would panic, possibly on the
+			// goroutine that completes the previous write.
+			return future.New[any]().Complete(nil)
+		}
+		return future.ThenCompose(next, func(p proto.Packet) *future.Future[any] {
 			return cq.writePacket(p, smc)
 		})
 	})
